@@ -78,6 +78,7 @@ type pairResult struct {
 	declOK    []token.Pos
 	blocksAt0 []token.Pos // stores to scope.blocks at depth 0
 	blocksOK  []token.Pos
+	callPush  map[ast.Node]map[token.Pos]bool       // call / variable store → positions of the innermost open newScope (NoPos: none) over all paths
 	callDepth map[*ast.CallExpr]int                 // minimal depth at each call
 	callDpop  map[*ast.CallExpr]int                 // minimal number of deferred pops registered at each call
 	callRegs  map[*ast.CallExpr][]map[string]string // register snapshots at each call (for rules layered on the pairing run)
@@ -122,14 +123,27 @@ func isRestoreSource(p *an.Prog, f *an.Fn, e ast.Expr, field string) (types.Obje
 func explorePairs(p *an.Prog, f *an.Fn) *pairResult {
 	info := f.Info()
 	pairedFields := pairedFieldsFor(p)
-	res := &pairResult{fn: f, fieldBad: map[string]pairFinding{}, fieldSeen: map[string]bool{}, callDepth: map[*ast.CallExpr]int{},
+	res := &pairResult{fn: f, fieldBad: map[string]pairFinding{}, fieldSeen: map[string]bool{}, callDepth: map[*ast.CallExpr]int{}, callPush: map[ast.Node]map[token.Pos]bool{},
 		callDpop: map[*ast.CallExpr]int{}, callRegs: map[*ast.CallExpr][]map[string]string{},
 		pushSites: map[token.Pos]bool{}, popSites: map[token.Pos]bool{}, plainRestore: map[string]token.Pos{}}
 	depthCap := 3
 	negReported := false
+	topPush := func(st *an.State) token.Pos {
+		if d := st.Int("depth"); d >= 1 {
+			return token.Pos(st.Int(fmt.Sprintf("push@%d", d)))
+		}
+		return token.NoPos
+	}
+	notePush := func(n ast.Node, st *an.State) {
+		if res.callPush[n] == nil {
+			res.callPush[n] = map[token.Pos]bool{}
+		}
+		res.callPush[n][topPush(st)] = true
+	}
 	hooks := an.Hooks{
 		Call: func(x *an.Explorer, call *ast.CallExpr, st *an.State) {
 			d := st.Int("depth")
+			notePush(call, st)
 			if cur, ok := res.callDepth[call]; !ok || d < cur {
 				res.callDepth[call] = d
 			}
@@ -149,6 +163,7 @@ func explorePairs(p *an.Prog, f *an.Fn) *pairResult {
 				res.pushSites[call.Pos()] = true
 				if d < depthCap {
 					st.SetInt("depth", d+1)
+					st.SetInt(fmt.Sprintf("push@%d", d+1), int(call.Pos()))
 				} else if !negReported {
 					negReported = true
 					res.scopeBad = append(res.scopeBad, pairFinding{call.Pos(), "newScope can be executed repeatedly without an intervening releaseScope (unbounded scope depth)", nil})
@@ -158,6 +173,9 @@ func explorePairs(p *an.Prog, f *an.Fn) *pairResult {
 				res.plainPop = call.Pos()
 				if d-1 < 0 {
 					st.SetInt("neg", 1)
+				}
+				if d >= 1 {
+					st.Set(fmt.Sprintf("push@%d", d), "")
 				}
 				st.SetInt("depth", d-1)
 			}
@@ -243,6 +261,7 @@ func explorePairs(p *an.Prog, f *an.Fn) *pairResult {
 			}
 			// stores into the variables map / the blocks table through the runtime
 			if ix, ok := an.Unparen(lhs).(*ast.IndexExpr); ok && p.FieldKey(info, ix.X) == "scope.variables" && throughRuntime(p, info, ix.X) {
+				notePush(ix, st)
 				if st.Int("depth") >= 1 {
 					res.declOK = append(res.declOK, lhs.Pos())
 				} else if !rebinding(x, st, ix) {
